@@ -467,8 +467,17 @@ def automaton(draw, Lmax=6):
 
 
 def build_automaton(desc):
-    nodes = [ptn.AutOpNode(n[0], [], [], n[1]) for n in desc['nodes']]
-    aut = ptn.AutOp(nodes, [], desc['term'])
+    # both public ways of assembling an automaton (deterministic choice from the descriptor): nodes that already list their edge
+    # ids plus all edges handed to the constructor (as the library's own model builders do), or an edge-less automaton that is
+    # extended with `add_connect_edge`
+    via_ctor = (len(desc['edges']) + len(desc['nodes'])) % 2 == 1
+    if via_ctor:
+        nodes = [ptn.AutOpNode(n[0], [e[0] for e in desc['edges'] if e[2] == n[0]], [e[0] for e in desc['edges'] if e[1] == n[0]], n[1])
+                 for n in desc['nodes']]
+        edges = []
+    else:
+        nodes = [ptn.AutOpNode(n[0], [], [], n[1]) for n in desc['nodes']]
+        aut = ptn.AutOp(nodes, [], desc['term'])
     for e in desc['edges']:
         o = e[3]; a = e[4]
         if 'by_site' in o:
@@ -481,5 +490,11 @@ def build_automaton(desc):
             active = (lambda i, bs=bs: bs[i])
         else:
             active = bool(a)
-        aut.add_connect_edge(ptn.AutOpEdge(e[0], [e[1], e[2]], opics, active))
+        edge = ptn.AutOpEdge(e[0], [e[1], e[2]], opics, active)
+        if via_ctor:
+            edges.append(edge)
+        else:
+            aut.add_connect_edge(edge)
+    if via_ctor:
+        aut = ptn.AutOp(nodes, edges, desc['term'])
     return aut
